@@ -409,3 +409,93 @@ Theorem roundtrip_any_chunking uok ms chunks :
   Forall (wf_msg uok) ms -> concat chunks = concat (map marshal ms) ->
   feed_all uok [] chunks = (map norm_msg ms, FMore []).
 Proof. intros H E. rewrite chunking_irrelevant, E. now apply parse_all_seq. Qed.
+
+(* ---------- well-formedness of the header Marshal puts on the wire, from the caller's header ---------- *)
+Lemma forall_key_hset (Q : bytes -> Prop) k vs h :
+  Q k -> Forall (fun e => Q (fst e)) h -> Forall (fun e : bytes * list bytes => Q (fst e)) (hset k vs h).
+Proof.
+  intros Hk. induction h as [|[k' vs'] t IH]; intros H; cbn [hset].
+  - constructor; [assumption|constructor].
+  - inversion H as [|? ? H1 H2]; subst. destruct (bcmp k k').
+    + constructor; assumption.
+    + constructor; [assumption|]. constructor; assumption.
+    + constructor; [assumption|]. now apply IH.
+Qed.
+
+Lemma hset_sorted k vs h : hsorted h -> hsorted (hset k vs h).
+Proof.
+  unfold hsorted. induction h as [|[k' vs'] t IH]; intros H; cbn [hset].
+  - constructor; constructor.
+  - apply StronglySorted_inv in H as [Ht Hf]. destruct (bcmp k k') eqn:E.
+    + constructor; [assumption|]. exact Hf.
+    + constructor; [constructor; assumption|].
+      constructor; [exact E|]. eapply Forall_impl; [|exact Hf].
+      intros e He. unfold key_lt in *. cbn [fst] in *. eapply bcmp_lt_trans; eassumption.
+    + constructor; [now apply IH|].
+      apply (forall_key_hset (fun x => bcmp k' x = Lt)); [|exact Hf].
+      rewrite (bcmp_antisym k k'), E. reflexivity.
+Qed.
+
+Lemma flat_hset_forall (Q : bytes * bytes -> Prop) k vs h :
+  Forall Q (map (fun v => (k, v)) vs) -> Forall Q (flat h) -> Forall Q (flat (hset k vs h)).
+Proof.
+  intros Hk. induction h as [|[k' vs'] t IH]; intros H; cbn [hset].
+  - unfold flat. cbn [flat_map fst snd]. now rewrite app_nil_r.
+  - unfold flat in *. cbn [flat_map fst snd] in *. apply Forall_app in H as [H1 H2].
+    destruct (bcmp k k') eqn:E; cbn [flat_map fst snd].
+    + apply bcmp_eq in E. subst k'. apply Forall_app. now split.
+    + apply Forall_app. split; [assumption|]. apply Forall_app. now split.
+    + apply Forall_app. split; [assumption|]. now apply IH.
+Qed.
+
+Lemma flat_hset_len k vs h : nlen (flat (hset k vs h)) <= nlen (flat h) + nlen vs.
+Proof.
+  induction h as [|[k' vs'] t IH]; cbn [hset].
+  - unfold flat. cbn [flat_map fst snd]. rewrite app_nil_r, nlen_map. cbn [nlen]. lia.
+  - unfold flat in *. cbn [flat_map fst snd] in *. destruct (bcmp k k'); cbn [flat_map fst snd];
+      rewrite ?nlen_app, ?nlen_map in *; lia.
+Qed.
+
+Lemma nonempty_hset k vs h : vs <> [] ->
+  Forall (fun e : bytes * list bytes => snd e <> []) h -> Forall (fun e : bytes * list bytes => snd e <> []) (hset k vs h).
+Proof.
+  intros Hv. induction h as [|[k' vs'] t IH]; intros H; cbn [hset].
+  - constructor; [assumption|constructor].
+  - inversion H as [|? ? H1 H2]; subst. destruct (bcmp k k').
+    + constructor; assumption.
+    + constructor; [assumption|]. constructor; assumption.
+    + constructor; [assumption|]. now apply IH.
+Qed.
+
+Lemma to_dec_val_ok n : val_ok (to_dec n).
+Proof.
+  pose proof (to_dec_digits n) as Hd. pose proof (to_dec_nonempty n) as Hne. repeat split.
+  - unfold nodelim. eapply forallb_impl; [|exact Hd]. intros x Hx. unfold is_digit, is_cr in *. lia.
+  - pose proof (to_dec_aux_len 20 n [] 20 ltac:(lia)) as L. unfold to_dec.
+    destruct (N.ltb_spec n (10 ^ N.of_nat 20)) as [H|H].
+    + specialize (L H). cbn [nlen] in L. eapply N.le_lt_trans; [exact L|]. reflexivity.
+    + clear L. (* longer numbers are cut to 20 digits by the fuel: still short *)
+      assert (G : forall f m acc, nlen (to_dec_aux f m acc) <= nlen acc + N.of_nat f).
+      { induction f as [|f IH]; intros m acc; cbn [to_dec_aux]; [lia|].
+        destruct (m <? 10); [cbn [nlen]; lia|]. etransitivity; [apply IH|]. cbn [nlen]. lia. }
+      eapply N.le_lt_trans; [apply G|]. reflexivity.
+  - destruct (to_dec n) as [|x t] eqn:E; [exact I|].
+    cbn [forallb] in Hd. apply andb_prop in Hd as [Hx _].
+    destruct x as [|p]; [exact I|]. unfold is_digit in Hx.
+    repeat (destruct p as [p|p|]; try exact I); cbn in Hx; discriminate.
+Qed.
+
+(* the caller's header [h] is fine, there is room for one more line: the header with Content-Length
+   is fine too.  (For an empty body with_cl h [] = h.) *)
+Theorem hdr_ok_with_cl h b :
+  hdr_ok h -> nlen (flat h) + 1 <= rtsp_hdr_max_entries -> hdr_ok (with_cl h b).
+Proof.
+  intros (Hs & Hne & Hl & Hc) Hroom. destruct b as [|x b]; [repeat split; assumption|].
+  cbn [with_cl]. repeat split.
+  - now apply hset_sorted.
+  - apply nonempty_hset; [discriminate|assumption].
+  - apply flat_hset_forall; [|assumption]. cbn [map]. constructor; [|constructor].
+    split; cbn [fst snd]; [|apply to_dec_val_ok].
+    repeat split; try reflexivity; try discriminate; try (vm_compute; discriminate).
+  - etransitivity; [apply flat_hset_len|]. cbn [nlen]. lia.
+Qed.
